@@ -1,13 +1,202 @@
-"""C17 -- placeholder until the check is built"""
+"""C17 -- the simulated rise curve is the integral of specific yield"""
+
+import io
+import os
+import sqlite3
+
+import numpy as np
+
+from .. import core, curves_common, data, gen_params, gen_planted, oracle_hydraulics as oh
+
 PROPERTY = 'C17'
 LEVEL = 'exploration'
-SHARDS = {'quick': 1, 'thorough': 1}
-RULE = 'not built yet'
+SHARDS = {'quick': 4, 'thorough': 16}
+RULE = (
+    'Function level: G-params specific-yield sets of both kinds x increasing level grids (inside, straddling either '
+    'end of, entirely beyond, and covering the knot range; uniform and irregular) handed to the real '
+    'compute_rise_curve.  Oracle: W[j]-W[i] against exact quadrature of the same callable (5-point Gauss-Legendre per '
+    'knot interval + rectangles outside; trapezoids on the 201 table points for PEATCLSM), the mean against the '
+    'requested mean, non-decrease when sy >= 0 on the range, and invariance of values at shared levels (up to the '
+    'mean shift) under grid refinement.  CLI level: planted / noisy datasets with an assembled rise curve x both '
+    'parameterisations through `spowtd simulate rise` with and without --observations; the table must list (level '
+    'mm, measured storage, simulated storage) of the view average_rising_depth in ascending order, its simulated '
+    'column must have the measured column\'s mean and integrate sy between rows, and the --observations vector must '
+    'equal the third column.  Non-trivial: grid with >= 1 cell straddling an end of the knot range; distinct by '
+    '(parameter digest, grid class).'
+)
+ASSUMPTIONS = ['quadrature of the repository\'s own specific-yield callable is the reference (C14 / C16 check that callable)']
+SIZES = {'quick': dict(fn=400, cli=14), 'thorough': dict(fn=20000, cli=500)}
+REQUIRED = {
+    tier: {
+        'curves-vs-quadrature': 300,
+        'refinements-compared': 300,
+        'grid:straddle-low': 20, 'grid:straddle-high': 20, 'grid:beyond-low': 20, 'grid:beyond-high': 20, 'grid:cover': 20,
+        'peatclsm-curves': 20,
+        'cli-tables-checked': 8,
+        'cli-observation-vectors-checked': 8,
+    }
+    for tier in ('quick', 'thorough')
+}
+MIN_NONTRIVIAL = {'quick': 150, 'thorough': 5000}
+
+
+def sy_reference(sy, params):
+    """(f, knots): vectorised callable and the breakpoints of its pieces"""
+    f = lambda x: np.asarray(sy(np.asarray(x, dtype=float)), dtype=float)
+    if params['type'] == 'spline':
+        return f, [float(v) for v in params['zeta_knots_mm']]
+    return f, [float(v) for v in sy.zeta_knots_mm]
+
+
+def check_function_case(ctx, rng, params):
+    import spowtd.simulate_rise as sim
+    import spowtd.specific_yield as sy_mod
+
+    rec = ctx.rec
+    rec.case()
+    sy = sy_mod.create_specific_yield_function(dict(params))
+    f, knots = sy_reference(sy, params)
+    grid, mode = gen_params.level_grid(rng, knots[0], knots[-1])
+    grid = np.array(grid)
+    mean = rng.choice([0.0, rng.uniform(-500, 500)])
+    case = {'kind': 'rise_fn', 'params': params, 'grid': grid.tolist(), 'mean': mean}
+    try:
+        W = np.asarray(sim.compute_rise_curve(sy, grid.copy(), mean), dtype=float)
+    except Exception as exc:  # pylint: disable=broad-except
+        desc = core.describe_exception(exc)
+        if desc['origin'] == 'harness':
+            rec.inconclusive_because('harness exception: {}'.format(desc))
+        else:
+            rec.violation('compute_rise_curve-raises:' + desc['type'], {'exception': desc}, case, 'rise_fn')
+        return
+    rec.hit('grid:' + mode)
+    if params['type'] == 'peatclsm':
+        rec.hit('peatclsm-curves')
+    fmax = max(1e-6, float(np.max(np.abs(f(np.linspace(knots[0], knots[-1], 201))))))
+    scale = fmax * (grid[-1] - grid[0])
+    ref = np.array([0.0] + [oh.clamped_integral(f, grid[i - 1], grid[i], knots) for i in range(1, len(grid))]).cumsum()
+    d = (W - W[0]) - ref
+    if W.shape != grid.shape or float(np.max(np.abs(d))) > 1e-9 * scale:
+        i = int(np.argmax(np.abs(d)))
+        rec.violation('storage-difference-is-not-the-integral-of-specific-yield',
+                      {'grid_class': mode, 'level': float(grid[i]), 'W_minus_W0': float(W[i] - W[0]), 'integral': float(ref[i]), 'scale': scale}, case, 'rise_fn')
+        return
+    rec.hit('curves-vs-quadrature')
+    if abs(float(W.mean()) - mean) > 1e-9 * max(1.0, abs(mean), scale):
+        rec.violation('mean-differs-from-the-requested-mean', {'mean': float(W.mean()), 'requested': mean}, case, 'rise_fn')
+        return
+    if float(np.min(f(np.linspace(grid[0], grid[-1], 400)))) >= 0 and np.any(np.diff(W) < -1e-12 * scale):
+        rec.violation('decreases-with-level-although-specific-yield-is-non-negative', {'W': W.tolist()[:10]}, case, 'rise_fn')
+        return
+    # refinement
+    fine = np.sort(np.concatenate([grid, 0.5 * (grid[:-1] + grid[1:]), [grid[0] + (grid[1] - grid[0]) / 3]]))
+    W2 = np.asarray(sim.compute_rise_curve(sy, fine.copy(), 0.0), dtype=float)
+    idx = np.searchsorted(fine, grid)
+    d2 = (W2[idx] - W2[idx][0]) - (W - W[0])
+    if float(np.max(np.abs(d2))) > 1e-9 * scale:
+        rec.violation('values-at-shared-levels-change-under-refinement', {'max_change': float(np.max(np.abs(d2))), 'scale': scale}, case, 'rise_fn')
+        return
+    rec.hit('refinements-compared')
+    if mode != 'inside':
+        rec.mark_nontrivial(core.digest((params, mode, len(grid))))
+        if len(rec.samples) < 2:
+            rec.sample({'params': params, 'grid_class': mode, 'grid_mm': grid.tolist()[:6], 'W_mm': W.tolist()[:6], 'quadrature': (ref + W[0]).tolist()[:6]})
+
+
+def random_params(rng, kind):
+    if kind == 'spline':
+        return {'specific_yield': gen_params.spline_sy(rng), 'transmissivity': gen_params.spline_T(rng)}
+    return {'specific_yield': gen_params.peatclsm_sy(rng), 'transmissivity': dict(gen_params.PUBLISHED_T, zeta_max_cm=300.0)}
+
+
+def check_cli_case(ctx, rng, index):
+    import yaml
+    import spowtd.specific_yield as sy_mod
+
+    rec = ctx.rec
+    case = gen_planted.gen(rng) if index % 3 else gen_planted.gen_noisy(rng)
+    db = os.path.join(ctx.workdir, 'r{}.sqlite3'.format(index))
+    err = curves_common.make_curves_db(ctx, case, db)
+    if err:
+        rec.hit('dataset-without-both-curves: ' + err)
+        return
+    connection = sqlite3.connect(db)
+    view = connection.execute('SELECT zeta_mm, mean_crossing_depth_mm FROM average_rising_depth ORDER BY zeta_mm').fetchall()
+    connection.close()
+    for kind in ('spline', 'peatclsm'):
+        rec.case()
+        params = random_params(rng, kind)
+        if kind == 'spline' and rng.random() < 0.5:
+            # knots around the observed levels so that the grid straddles them
+            z = [v[0] for v in view]
+            lo, hi = min(z), max(z)
+            n = len(params['specific_yield']['sy_knots'])
+            params['specific_yield']['zeta_knots_mm'] = [lo + (hi - lo) * (0.2 + 0.6 * i / (n - 1)) for i in range(n)]
+        pfile = curves_common.write_yaml(os.path.join(ctx.workdir, 'r{}_{}.yml'.format(index, kind)), params)
+        wcase = dict(case, params=params)
+        outs = {}
+        for obs in (False, True):
+            out = os.path.join(ctx.workdir, 'r{}_{}_{}.out'.format(index, kind, int(obs)))
+            argv = ['simulate', 'rise', db, pfile, '-o', out] + (['--observations'] if obs else [])
+            status, exc = data.cli(argv)
+            if exc is not None or status != 0:
+                desc = core.describe_exception(exc) if exc else {'status': status}
+                rec.violation('simulate-rise-fails', {'exception': desc, 'observations': obs}, wcase, 'rise_cli')
+                break
+            # the output file object is closed when argparse's namespace dies
+            import gc
+            gc.collect()
+            with open(out) as f:
+                outs[obs] = f.read()
+        if len(outs) < 2:
+            continue
+        table = yaml.safe_load(outs[False])
+        header, rows = table[0], table[1:]
+        if header != ['Water level, mm', 'Measured storage, mm', 'Simulated storage, mm']:
+            rec.violation('table-header-differs', {'header': header}, wcase, 'rise_cli')
+            continue
+        if [(r[0], r[1]) for r in rows] != [(z, w) for z, w in view]:
+            rec.violation('table-rows-are-not-the-measured-master-curve-in-ascending-order',
+                          {'table_first': rows[:3], 'view_first': view[:3], 'n_table': len(rows), 'n_view': len(view)}, wcase, 'rise_cli')
+            continue
+        sim_col = np.array([r[2] for r in rows], dtype=float)
+        meas = np.array([r[1] for r in rows], dtype=float)
+        sy = sy_mod.create_specific_yield_function(dict(params['specific_yield']))
+        f, knots = sy_reference(sy, params['specific_yield'])
+        grid = np.array([r[0] for r in rows], dtype=float)
+        ref = np.array([0.0] + [oh.clamped_integral(f, grid[i - 1], grid[i], knots) for i in range(1, len(grid))]).cumsum()
+        scale = max(1e-6, float(np.max(np.abs(f(np.linspace(grid[0], grid[-1], 101))))) * (grid[-1] - grid[0]))
+        if float(np.max(np.abs((sim_col - sim_col[0]) - ref))) > 1e-9 * scale:
+            rec.violation('simulated-column-is-not-the-integral-of-specific-yield', {'scale': scale}, wcase, 'rise_cli')
+            continue
+        if abs(sim_col.mean() - meas.mean()) > 1e-9 * max(1.0, abs(meas.mean()), scale):
+            rec.violation('simulated-mean-differs-from-measured-mean', {'simulated': float(sim_col.mean()), 'measured': float(meas.mean())}, wcase, 'rise_cli')
+            continue
+        rec.hit('cli-tables-checked')
+        vec = yaml.safe_load(outs[True])
+        if not outs[True].startswith('# Rise curve simulation vector\n') or vec != [r[2] for r in rows]:
+            rec.violation('observations-vector-differs-from-the-table-column', {'vector_first': (vec or [])[:3], 'column_first': [r[2] for r in rows][:3]}, wcase, 'rise_cli')
+            continue
+        rec.hit('cli-observation-vectors-checked')
+        rec.mark_nontrivial(core.digest(('cli', kind, case['rain'][:30], params)))
+    if os.path.exists(db):
+        os.remove(db)
 
 
 def run(ctx):
-    ctx.rec.inconclusive_because('check not built yet')
+    s = SIZES[ctx.tier]
+    rng = ctx.rng('fn')
+    for i in range(ctx.share(s['fn'])):
+        params = gen_params.peatclsm_sy(rng) if i % 8 == 0 else gen_params.spline_sy(rng, positive=(i % 3 != 0))
+        check_function_case(ctx, rng, params)
+    rng = ctx.rng('cli')
+    for i in range(ctx.share(s['cli'])):
+        check_cli_case(ctx, rng, i)
 
 
 def replay(ctx, case, module=None):
-    ctx.rec.inconclusive_because('check not built yet')
+    rng = core.make_rng('replay')
+    if case.get('kind') == 'rise_fn':
+        check_function_case(ctx, rng, case['params'])
+    else:
+        ctx.rec.inconclusive_because('CLI cases regenerate from the seed; rerun the tier with the same seed')
